@@ -167,6 +167,10 @@ static inline VmTrap trap_error(VmState *vm, VmResult err, const char *fmt, ...)
  * external operation (I/O, FFI, halt) or completes / errors.
  * ======================================================================== */
 
+#ifdef NANOLANG_VERIF
+int (*nl_verif_vm_step)(VmState *vm) = 0;
+#endif
+
 VmTrap vm_core_execute(VmState *vm) {
     const uint8_t *code = vm->module->code;
 
@@ -178,6 +182,13 @@ VmTrap vm_core_execute(VmState *vm) {
 
     /* Main dispatch loop */
     while (vm->ip < code_end) {
+#ifdef NANOLANG_VERIF
+        /* Verification seam: called at every instruction boundary (fuel, heap audit,
+         * scheduling point).  NULL by default; returning 0 stops the run. */
+        if (nl_verif_vm_step && !nl_verif_vm_step(vm)) {
+            return trap_error(vm, VM_ERR_NOT_IMPLEMENTED, "verification hook stopped execution (fuel)");
+        }
+#endif
         DecodedInstruction instr;
         uint32_t consumed = isa_decode(code + vm->ip, code_end - vm->ip, &instr);
         if (consumed == 0) {
